@@ -296,6 +296,18 @@ func (x *rx) scanners() {
 }
 
 // dbs: every unfiltered database is fetched (fetcher) and listed (getSourceDbList).
+type posOnly token.Pos
+
+func (p posOnly) Pos() token.Pos { return token.Pos(p) }
+func (p posOnly) End() token.Pos { return token.Pos(p) }
+
+func posOf(o types.Object) ast.Node {
+	if o == nil {
+		return posOnly(token.NoPos)
+	}
+	return posOnly(o.Pos())
+}
+
 func (x *rx) dbs() {
 	g := x.g("fetcher")
 	rs := x.rangeOver("fetcher", func(e ast.Expr) bool { return x.field(e) == "dbList" })
@@ -305,25 +317,110 @@ func (x *rx) dbs() {
 		return
 	}
 	dbv := c07.Obj(x.info, rs.Value)
+	// is: e denotes v, possibly converted or held in a single-assignment local (`logical := int(db)`)
+	is := func(e ast.Expr, v types.Object) bool { return v != nil && c07.Obj(x.info, c07.Through(x.info, e)) == v }
+	// handsOver: a statement that gives v to something that is not understood here (not a log call): what has
+	// to happen with v may happen there
+	handsOver := func(v types.Object, known func(ast.Node) bool) func(ast.Node) bool {
+		return func(n ast.Node) bool {
+			if known(n) {
+				return false
+			}
+			switch st := n.(type) {
+			case *ast.AssignStmt:
+				for _, r := range st.Rhs {
+					if call, isC := ast.Unparen(r).(*ast.CallExpr); isC {
+						if tv, isT := x.info.Types[call.Fun]; isT && tv.IsType() || c07.CalleeF(x.info, call) == filterDB.Obj {
+							continue // a conversion, the filter itself
+						}
+						if _, isB := core.Callee(x.info, call).(*types.Builtin); isB {
+							continue
+						}
+						for _, a := range call.Args {
+							if is(a, v) {
+								return true
+							}
+						}
+					}
+				}
+				return false
+			case *ast.ExprStmt, *ast.GoStmt, *ast.DeferStmt, *ast.SendStmt:
+			default:
+				return false
+			}
+			for _, call := range cfgq.ExecCalls(n) {
+				f := c07.CalleeF(x.info, call)
+				if f != nil && f.Pkg() != nil && strings.HasSuffix(f.Pkg().Path(), "/log") || f == filterDB.Obj {
+					continue
+				}
+				if _, isB := core.Callee(x.info, call).(*types.Builtin); isB {
+					continue
+				}
+				for _, a := range call.Args {
+					if is(a, v) {
+						return true
+					}
+				}
+			}
+			if snd, isS := n.(*ast.SendStmt); isS && is(snd.Value, v) {
+				return true
+			}
+			return false
+		}
+	}
 	head, body := c07.RangeBlocks(g, rs)
 	isFetch := x.callNode(x.fn["doFetch"].Obj)
 	filtered := func(b *cfg.Block, s int) bool {
 		return c07.EdgeFact(g, b, s, func(f cfgq.Fact) bool {
 			call, ok := ast.Unparen(f.Expr).(*ast.CallExpr)
-			return ok && f.Val && c07.CalleeF(x.info, call) == filterDB.Obj && len(call.Args) == 1 && c07.Obj(x.info, c07.Strip(x.info, call.Args[0])) == dbv
+			return ok && f.Val && c07.CalleeF(x.info, call) == filterDB.Obj && len(call.Args) == 1 && is(call.Args[0], dbv)
 		})
 	}
-	x.c.Check("R5.dbs", "fetcher/every-db", rs.Pos(), !c07.ReachBlock2(g, cfgq.Point{B: body}, isFetch, filtered, head),
-		"every database of dbList that passes the db filter must be fetched: here an iteration reaches the next database without doFetch, so that database's keys are never copied")
-	okArg := false
+	const everyMsg = "every database of dbList that passes the db filter must be fetched: here an iteration reaches the next database without doFetch, so that database's keys are never copied"
+	if miss := c07.ReachBlock2(g, cfgq.Point{B: body}, isFetch, filtered, head); miss && !c07.ReachBlock2(g, cfgq.Point{B: body}, cfgq.Or(isFetch, handsOver(dbv, isFetch)), filtered, head) {
+		x.c.Undecidedf("R5.dbs", "fetcher/every-db", rs.Pos(), "an iteration reaches the next database without a direct doFetch, but hands the database to a function that is not followed")
+	} else {
+		x.c.Check("R5.dbs", "fetcher/every-db", rs.Pos(), !miss, everyMsg)
+	}
+	// the argument of every doFetch: the database of this iteration (right), something else that is fully known
+	// (wrong), or a local that is assigned more than once / computed (not followed)
+	nFetch, wrongArg, unknownArg := 0, "", ""
 	for _, p := range g.Points(isFetch) {
 		for _, call := range cfgq.ExecCalls(p.Node()) {
-			if c07.CalleeF(x.info, call) == x.fn["doFetch"].Obj {
-				okArg = len(call.Args) == 1 && c07.Obj(x.info, c07.Strip(x.info, call.Args[0])) == dbv
+			if c07.CalleeF(x.info, call) != x.fn["doFetch"].Obj {
+				continue
 			}
+			nFetch++
+			if len(call.Args) == 1 && is(call.Args[0], dbv) {
+				continue
+			}
+			t := ast.Expr(nil)
+			if len(call.Args) == 1 {
+				t = c07.Through(x.info, call.Args[0])
+			}
+			if id, isID := t.(*ast.Ident); isID {
+				if lv, isV := c07.Obj(x.info, id).(*types.Var); isV && !lv.IsField() && lv.Pkg() != nil && lv.Parent() != lv.Pkg().Scope() && types.Object(lv) != dbv {
+					unknownArg = x.c.Src(call) // a local with several assignments
+					continue
+				}
+			}
+			if _, isCall := t.(*ast.CallExpr); isCall {
+				unknownArg = x.c.Src(call) // computed
+				continue
+			}
+			wrongArg = x.c.Src(call)
 		}
 	}
-	x.c.Check("R5.dbs", "fetcher/db-arg", rs.Pos(), okArg, "doFetch must be given the database of this iteration")
+	switch {
+	case nFetch == 0: // absence is judged by fetcher/every-db
+		x.c.Undecidedf("R5.dbs", "fetcher/db-arg", rs.Pos(), "no direct doFetch call in fetcher")
+	case wrongArg != "":
+		x.c.Failf("R5.dbs", "fetcher/db-arg", rs.Pos(), "doFetch must be given the database of this iteration (found `%s`)", wrongArg)
+	case unknownArg != "":
+		x.c.Undecidedf("R5.dbs", "fetcher/db-arg", rs.Pos(), "the argument of `%s` is a computed value or a local with several assignments: not followed", unknownArg)
+	default:
+		x.c.Okf("R5.dbs", "fetcher/db-arg", rs.Pos(), "doFetch must be given the database of this iteration")
+	}
 	// getSourceDbList: for db, number := range mp { if number > 0 && !FilterDB(db) { list = append(list, db) } }
 	fn := x.fn["getSourceDbList"]
 	gl := x.g("getSourceDbList")
@@ -342,23 +439,45 @@ func (x *rx) dbs() {
 	}
 	k, v := c07.Obj(x.info, lr.Key), c07.Obj(x.info, lr.Value)
 	lh, lb := c07.RangeBlocks(gl, lr)
+	// the append of this database to a list: `l = append(l, ..db..)` as one of the (possibly several) assignments
+	// of the statement
 	isApp := func(n ast.Node) bool {
-		b := pat.Stmt("_l = append(_l, _d)").Match(x.info, n, nil)
-		return b != nil && c07.Obj(x.info, b["_d"].(ast.Expr)) == k
-	}
-	// An edge may skip the append only when it implies "number <= 0 or FilterDB(db)": the condition is evaluated
-	// for the four truth assignments of its two atoms (any boolean combination, either polarity, guard clause or
-	// nested form).
-	atom := func(e ast.Expr) (idx int, neg bool, ok bool) { // 0: number > 0, 1: FilterDB(db)
-		e = ast.Unparen(e)
-		if call, isC := e.(*ast.CallExpr); isC && c07.CalleeF(x.info, call) == filterDB.Obj && len(call.Args) == 1 && c07.Obj(x.info, c07.Strip(x.info, call.Args[0])) == k {
-			return 1, false, true
+		as, ok := n.(*ast.AssignStmt)
+		if !ok || len(as.Lhs) != len(as.Rhs) {
+			return false
 		}
-		// a comparison of the key count with a constant: a count is 0 or positive, so the comparison is an atom
-		// "number > 0" (or its negation) iff it has one truth value at 0 and the other one at every positive value
+		for i, r := range as.Rhs {
+			call, isC := ast.Unparen(r).(*ast.CallExpr)
+			if !isC || len(call.Args) < 2 {
+				continue
+			}
+			if bi, isB := core.Callee(x.info, call).(*types.Builtin); !isB || bi.Name() != "append" {
+				continue
+			}
+			if l := c07.Obj(x.info, as.Lhs[i]); l == nil || l != c07.Obj(x.info, call.Args[0]) {
+				continue
+			}
+			for _, a := range call.Args[1:] {
+				if is(a, k) {
+					return true
+				}
+			}
+		}
+		return false
+	}
+	// An edge may skip the append only when it cannot be taken for a non-empty, unfiltered database: the branch
+	// condition (any boolean combination, either polarity, guard clause or nested form, parts held in locals of
+	// the loop body) is evaluated for FilterDB(db) = false and every relevant key count n >= 1; the atoms are
+	// FilterDB(db) and linear comparisons of the count with constants.
+	var crit []int64 // counts at which some comparison changes its value
+	atom := func(e ast.Expr, n int64, q bool) (val, ok bool) {
+		e = ast.Unparen(e)
+		if call, isC := e.(*ast.CallExpr); isC && c07.CalleeF(x.info, call) == filterDB.Obj && len(call.Args) == 1 && is(call.Args[0], k) {
+			return q, true
+		}
 		var num ast.Expr
-		ast.Inspect(e, func(n ast.Node) bool {
-			if y, isE := n.(ast.Expr); isE && num == nil && c07.Obj(x.info, c07.Strip(x.info, y)) == v {
+		ast.Inspect(e, func(m ast.Node) bool {
+			if y, isE := m.(ast.Expr); isE && num == nil && c07.Obj(x.info, c07.Strip(x.info, y)) == v {
 				if _, isID := ast.Unparen(y).(*ast.Ident); isID {
 					num = y
 				}
@@ -367,56 +486,71 @@ func (x *rx) dbs() {
 		})
 		cmpv, okc := lin.CmpOf(x.info, e, true)
 		if num == nil || !okc || len(cmpv.F.Coef) != 1 {
-			return 0, false, false
+			return false, false
 		}
 		co := cmpv.F.Coef[lin.Key(x.info, num)]
 		if co == 0 {
-			return 0, false, false
+			return false, false
 		}
-		at := func(n int64) bool {
-			t := co*n + cmpv.F.Const
-			switch cmpv.Op {
-			case token.EQL:
-				return t == 0
-			case token.NEQ:
-				return t != 0
-			case token.LSS:
-				return t < 0
-			}
-			return t <= 0
+		crit = append(crit, -cmpv.F.Const/co)
+		t := co*n + cmpv.F.Const
+		switch cmpv.Op {
+		case token.EQL:
+			return t == 0, true
+		case token.NEQ:
+			return t != 0, true
+		case token.LSS:
+			return t < 0, true
 		}
-		if at(1) != at(1<<40) || at(1) != at(2) || at(0) == at(1) {
-			return 0, false, false
-		}
-		return 0, !at(1), true
+		return t <= 0, true
 	}
-	var eval func(e ast.Expr, p, q bool) (bool, bool)
-	eval = func(e ast.Expr, p, q bool) (bool, bool) {
+	var eval func(e ast.Expr, n int64, q bool) (bool, bool)
+	eval = func(e ast.Expr, n int64, q bool) (bool, bool) {
 		e = ast.Unparen(e)
+		if id, isID := e.(*ast.Ident); isID && c07.Within(posOf(c07.Obj(x.info, id)), lr.Body) {
+			if d := pat.DefOf(x.info, id); d != nil {
+				e = ast.Unparen(d) // a condition held in a single-assignment local of the loop body
+			}
+		}
 		switch t := e.(type) {
+		case *ast.CallExpr: // a parameterless predicate closure bound once: `keep := func() bool { return <cond> }`
+			if id, isID := ast.Unparen(t.Fun).(*ast.Ident); isID && len(t.Args) == 0 {
+				if lit, isLit := ast.Unparen(pat.DefOf(x.info, id)).(*ast.FuncLit); isLit && len(lit.Body.List) == 1 {
+					if ret, isRet := lit.Body.List[0].(*ast.ReturnStmt); isRet && len(ret.Results) == 1 {
+						return eval(ret.Results[0], n, q)
+					}
+				}
+			}
 		case *ast.UnaryExpr:
 			if t.Op == token.NOT {
-				r, ok := eval(t.X, p, q)
+				r, ok := eval(t.X, n, q)
 				return !r, ok
 			}
 		case *ast.BinaryExpr:
 			if t.Op == token.LAND || t.Op == token.LOR {
-				a, ok1 := eval(t.X, p, q)
-				bb, ok2 := eval(t.Y, p, q)
+				a, ok1 := eval(t.X, n, q)
+				bb, ok2 := eval(t.Y, n, q)
 				if t.Op == token.LAND {
 					return a && bb, ok1 && ok2
 				}
 				return a || bb, ok1 && ok2
 			}
 		}
-		if i, neg, ok := atom(e); ok {
-			val := p
-			if i == 1 {
-				val = q
+		return atom(e, n, q)
+	}
+	// A condition that mentions the database or its key count but cannot be evaluated over the two atoms leaves
+	// what is decided here: its edges are followed for a definite verdict and cut for the optimistic one.
+	optimistic, unevaluable := false, false
+	mentions := func(e ast.Expr) bool {
+		found := false
+		ast.Inspect(e, func(n ast.Node) bool {
+			if id, isID := n.(*ast.Ident); isID {
+				o := c07.Obj(x.info, id)
+				found = found || o == k || o == v || o != nil && c07.Within(posOf(o), lr.Body)
 			}
-			return val != neg, true
-		}
-		return false, false
+			return !found
+		})
+		return found
 	}
 	skipOK := func(b *cfg.Block, s int) bool {
 		cond := cfgq.CondOf(b)
@@ -424,18 +558,39 @@ func (x *rx) dbs() {
 			return false
 		}
 		want := s == 0
-		for _, p := range []bool{true, false} {
-			for _, q := range []bool{true, false} {
-				r, ok := eval(cond, p, q)
-				if !ok {
-					return false
-				}
-				if r == want && p && !q { // the edge can be taken for a non-empty, unfiltered database
-					return false
-				}
+		crit = crit[:0]
+		if _, ok := eval(cond, 1, false); !ok {
+			if mentions(cond) {
+				unevaluable = true
+				return optimistic
+			}
+			return false
+		}
+		samples := []int64{1, 2, 1 << 40}
+		for _, t := range crit {
+			samples = append(samples, t-1, t, t+1)
+		}
+		for _, n := range samples {
+			if n < 1 {
+				continue
+			}
+			if r, _ := eval(cond, n, false); r == want { // the edge can be taken for a non-empty, unfiltered database
+				return false
 			}
 		}
 		return true
+	}
+	if miss := c07.ReachBlock2(gl, cfgq.Point{B: lb}, isApp, skipOK, lh); miss && unevaluable {
+		optimistic = true
+		if !c07.ReachBlock2(gl, cfgq.Point{B: lb}, isApp, skipOK, lh) {
+			x.c.Undecidedf("R5.dbs", "getSourceDbList/lists-every-db", lr.Pos(), "a condition on the database or its key count is not a combination of `count > 0` and FilterDB(db): not evaluated")
+			return
+		}
+		optimistic = false
+	}
+	if miss := c07.ReachBlock2(gl, cfgq.Point{B: lb}, isApp, skipOK, lh); miss && !c07.ReachBlock2(gl, cfgq.Point{B: lb}, cfgq.Or(isApp, handsOver(k, isApp)), skipOK, lh) {
+		x.c.Undecidedf("R5.dbs", "getSourceDbList/lists-every-db", lr.Pos(), "an iteration ends without a direct append of the database, but hands it to a function that is not followed")
+		return
 	}
 	x.c.Check("R5.dbs", "getSourceDbList/lists-every-db", lr.Pos(), !c07.ReachBlock2(gl, cfgq.Point{B: lb}, isApp, skipOK, lh),
 		"every non-empty, unfiltered database reported by `info keyspace` must be put into the db list: a database left out is never scanned")
